@@ -424,7 +424,8 @@ def gen_dec(r, k):
             c2 = ctx.copy()
             need_update = c2.size > c2.limit
             blk, fields, t2 = write_block(r, c2)
-            if need_update and r.random() < 0.8:
+            kk = r.random()
+            if need_update and kk < 0.55:
                 m = r.choice([c2.limit, max(c2.limit - 1, 0), 0])
                 c3 = ctx.copy()
                 c3.resize(m)
@@ -432,6 +433,20 @@ def gen_dec(r, k):
                 blk = S.rep_size(m) + b2
                 c2 = c3
                 t2.append("complying-update")
+            elif need_update and kk < 0.85:
+                # the peer does NOT comply: an update that leaves the size above the permitted
+                # maximum (the current size again, one above the limit, ...), alone, repeated or
+                # followed by fields -- must be refused
+                m = r.choice([ctx.size, ctx.size, ctx.limit + 1, ctx.limit + 2, ctx.size - 1 if ctx.size - 1 > ctx.limit else ctx.size])
+                c3 = ctx.copy()
+                b2, fields, t2 = write_block(r, c3, nfields=r.choice([0, 0, 1, 2]))
+                blk = S.rep_size(m) * r.choice([1, 1, 2]) + b2
+                t2.append("non-complying-update")
+                tags += t2
+                cmds.append("ddec %s %d %s" % (d, 1 if raw else 0, hx(blk)))
+                cmds.append("ddec %s 1 %s" % (d, hx(b"\x82")))
+                cmds.append("ddec %s 1 %s" % (d, hx(b"")))
+                break
             tags += t2
             size = sum(S.esize(n, v) for _, n, v in fields)
             if size == L:
@@ -539,3 +554,160 @@ def gen_pair(r, k):
 
 
 FAMILIES = {"int": gen_int, "huff": gen_huff, "table": gen_table, "dec": gen_dec, "bomb": gen_bomb, "pair": gen_pair}
+
+
+# ------------------------------------------------------------------ API forms (C18)
+
+def rand_text_bytes(r, n):
+    """valid UTF-8 (so that the str form exists), mixing ASCII and multi-byte characters"""
+    out = ""
+    for _ in range(n):
+        k = r.random()
+        if k < 0.8:
+            out += r.choice("abcdefghijklmnopqrstuvwxyz0123456789-:/.")
+        elif k < 0.9:
+            out += chr(r.randrange(0xa0, 0x7ff))
+        elif k < 0.97:
+            out += chr(r.choice([0x20ac, 0x4e2d, 0xfffd, 0x800]))
+        else:
+            out += chr(r.choice([0x1f600, 0x10000, 0x10ffff]))
+    return out.encode("utf-8")
+
+
+def gen_api(r, k):
+    """the same canonical header sequence given to fresh encoders in different forms; a dict
+    container; raw vs text decoding of the same blocks on twin decoders"""
+    cases = []
+    for ci in range(k):
+        cmds, tags = [], []
+        nenc = 3
+        ids = ["a%d_%d" % (ci, j) for j in range(nenc)]
+        for e in ids:
+            cmds.append("enew %s" % e)
+        groups = []
+        pool = []
+        for bi in range(r.choice([1, 2, 3])):
+            if r.random() < 0.3:
+                v = r.choice([0, 64, 100, 4096])
+                for e in ids:
+                    cmds.append("eset %s %s" % (e, zs(v)))
+            huff = r.random() < 0.5
+            use_dict = r.random() < 0.3
+            fields = []
+            for _ in range(r.choice([1, 2, 3, 5, 8])):
+                if r.random() < 0.5:
+                    n, v, s = rand_field(r, pool)
+                    try:
+                        n.decode("utf-8"), v.decode("utf-8")
+                    except UnicodeDecodeError:
+                        n, v = rand_text_bytes(r, r.choice([1, 3, 8])), rand_text_bytes(r, r.choice([0, 2, 9]))
+                else:
+                    n, v, s = rand_text_bytes(r, r.choice([1, 3, 8])), rand_text_bytes(r, r.choice([0, 2, 9])), r.random() < 0.3
+                    if r.random() < 0.3:
+                        n = b":" + n
+                if use_dict:
+                    s = False
+                    if any(f[0] == n for f in fields):
+                        continue
+                fields.append((n, v, s))
+            if use_dict:
+                tags.append("dict")
+            line_ids = []
+            for j, e in enumerate(ids):
+                toks = []
+                for n, v, s in fields:
+                    nt = r.choice("bt")
+                    vt = r.choice("bt")
+                    if use_dict:
+                        kind = "2"
+                        nt = "b" if j == 0 else nt          # same canonical keys, different key types
+                    elif j == 0:
+                        kind, nt, vt = ("3T" if s else "2"), "b", "b"   # the reference form
+                    else:
+                        kind = r.choice(["3T", "N"]) if s else r.choice(["2", "3F", "3N", "H"])
+                    if nt == "t" or vt == "t":
+                        tags.append("text")
+                    toks.append("%s,%s%s,%s%s" % (kind, nt, hx(n).replace("-", ""), vt, hx(v).replace("-", "")))
+                    tags.append("form-" + kind)
+                cont = "D" if use_dict else ("L" if j == 0 else r.choice("LI"))
+                if cont == "I":
+                    tags.append("iterator")
+                cmds.append("eencf %s %d %s %s" % (e, 1 if huff else 0, cont, " ".join(toks)))
+                line_ids.append(len(cmds) - 1)
+            groups.append(line_ids)
+        # decoder modes: twin decoders, one raw one text, same blocks (valid text and not)
+        d1, d2 = "ar%d" % ci, "at%d" % ci
+        cmds += ["dnew %s 10000" % d1, "dnew %s 10000" % d2]
+        ctx = S.Ctx()
+        twins = []
+        for _ in range(r.choice([1, 2, 3])):
+            blk, fs, t2 = write_block(r, ctx)
+            cmds.append("ddec %s 1 %s" % (d1, hx(blk)))
+            cmds.append("ddec %s 0 %s" % (d2, hx(blk)))
+            twins.append((len(cmds) - 2, len(cmds) - 1))
+        cases.append({"family": "api", "cmds": cmds, "meta": {"groups": groups, "twins": twins}, "tags": sorted(set(tags))})
+    return cases
+
+
+# ------------------------------------------------------------------ input buffers (C17)
+
+def gen_prov(r, k):
+    cases = []
+    for ci in range(k):
+        d = "v%d" % ci
+        cmds, tags = ["dnew %s 100000" % d], []
+        ctx = S.Ctx()
+        for _ in range(r.choice([1, 2, 3, 4])):
+            bt = r.choice("BAM")
+            tags.append({"B": "bytes", "A": "bytearray", "M": "memoryview"}[bt])
+            raw = r.random() < 0.6
+            c2 = ctx.copy()
+            blk, fs, t2 = write_block(r, c2, nfields=r.choice([1, 2, 4, 8]))
+            tags += [t for t in t2 if t in ("huffman", "dynamic-index", "eviction", "never-indexed")]
+            bad = r.random() < 0.15
+            if bad:
+                blk, tg = corrupt(r, blk, ctx)
+                tags.append("raises")
+            cmds.append("ddecb %s %d %s %s" % (d, 1 if raw else 0, bt, hx(blk)))
+            if bad:
+                break
+            ctx = c2
+            # read back every stored entry through a later block (from an untouched buffer)
+            if ctx.dyn:
+                probe = b"".join(S.rep_indexed(62 + i) for i in range(len(ctx.dyn)))
+                cmds.append("ddec %s 1 %s" % (d, hx(probe)))
+        cases.append({"family": "prov", "cmds": cmds, "meta": {}, "tags": sorted(set(tags))})
+    return cases
+
+
+def gen_cost(r, k, base=6000):
+    """C16: input shapes the property names, each at lengths about n, 2n, 4n"""
+    shapes = {
+        "cont-run-indexed": lambda n: b"\xff" + b"\xff" * n + b"\x01",
+        "cont-run-zeros": lambda n: b"\xff" + b"\x80" * n + b"\x00",
+        "cont-run-name-index": lambda n: b"\x7f" + b"\xff" * n + b"\x01\x00",
+        "cont-run-string-length": lambda n: b"\x00\x7f" + b"\xff" * n + b"\x01",
+        "cont-run-size-update": lambda n: b"\x3f" + b"\x80" * n + b"\x00",
+        "long-plain-string": lambda n: S.rep_literal("no", b"x", b"v" * n),
+        "long-huffman-string": lambda n: S.rep_literal("no", b"x", b"a" * n, hv=True),
+        "long-indexed-literal": lambda n: S.rep_literal("inc", b"x", b"v" * n),
+        "many-indexed": lambda n: b"\x82" * n,
+        "many-tiny-literals": lambda n: S.rep_literal("no", b"a", b"") * (n // 4),
+        "many-inserting-literals": lambda n: b"".join(S.rep_literal("inc", b"k%d" % (i % 50), b"v") for i in range(n // 7)),
+        "many-size-updates": lambda n: b"\x20" * n + b"\x82",
+        "many-never-indexed-huffman": lambda n: S.rep_literal("never", b"abc", b"def", hn=True, hv=True) * (n // 9),
+    }
+    cases = []
+    names = sorted(shapes)
+    for ci in range(k):
+        nm = names[ci % len(names)]
+        L = 2 ** 40 if (ci // len(names)) % 2 == 0 else 65536
+        n = base + r.randrange(0, base // 8)
+        cmds = ["cost %s 1 %s" % (zs(L), hx(shapes[nm](m))) for m in (n, 2 * n, 4 * n)]
+        cases.append({"family": "cost", "cmds": cmds, "meta": {"shape": nm, "n": n, "L": L}, "tags": [nm]})
+    return cases
+
+
+FAMILIES["cost"] = gen_cost
+FAMILIES["api"] = gen_api
+FAMILIES["prov"] = gen_prov
